@@ -199,10 +199,24 @@ var endpointSpecs = []struct {
 }
 
 type subRule struct{ bits, cap int }
+
+func (r subRule) String() string { return fmt.Sprintf("/%d<=%d", r.bits, r.cap) }
+
 type pfxRule struct {
 	pfx     netip.Prefix
 	cap     int
 	derived bool // added by the manager for an allow-listed network (cap not configured)
+}
+
+func (r pfxRule) String() string {
+	c := fmt.Sprint(r.cap)
+	if r.cap == math.MaxInt {
+		c = "max"
+	}
+	if r.derived {
+		c += " (derived)"
+	}
+	return r.pfx.String() + "<=" + c
 }
 
 type config struct {
@@ -492,6 +506,12 @@ type node struct {
 	peer     int  // connections and streams; -1 = none
 	counted  bool // holds a slot of the per-subnet limiter
 	poisoned bool // F5 fired on it: no further SetPeer is generated
+
+	// stratum C only: the placement of a connection from an allow-listed endpoint is not visible
+	// to its caller; spRefused lists the peers of refused SetPeer calls
+	ambig     bool
+	spTried   bool
+	spRefused []int
 
 	// streams
 	proto, svc int
